@@ -6,3 +6,6 @@ open GV.FieldLoopsGen
 #print axioms C01gen_batchInvert
 #print axioms C01gen_batchInvert_abs
 #print axioms C01gen_batchInvert_field
+#print axioms C01gen_legendre_eq_model
+#print axioms C01gen_legendre_chain
+#print axioms C01gen_legendre
